@@ -475,8 +475,11 @@ def optree_texts(quick, seed):
         for s2 in stmts:
             out += [f'select ({s1}) filter ({s2})',
                     f'for x in ({s1}) union ({s2})',
-                    f'for x in ({s1}) {s2}' if False else
+                    f'for x in ({s1}) {s2}',
+                    f'for x in ({s1}) for y in ({s2}) select (x, y)',
                     f'with w := ({s1}) {s2}',
+                    f'select a order by ({s1}) asc empty first then ({s2}) '
+                    f'desc empty last',
                     f'select ({s1}) {{ y := ({s2}) }}',
                     f'insert A {{ l := ({s1}), m := ({s2}) }}',
                     f'select (({s1}), ({s2}))',
